@@ -11,3 +11,6 @@ package asthelper
 
 //@ func IndexExpr
 //@   inline
+
+//@ func IntLit
+//@   inline
